@@ -141,6 +141,29 @@ def normal_multipliers(ctx):
             ok = conv and val == -1
             why = ("multipliers start at 1 and are set to %s where %s(domain_indices, %s); " % (val, unparse(sl.func), unparse(members))) + (
                 "" if conv else "the membership test receives the caller's collection as it is: for a set, frozenset or dict (the function's own default is `{}`) NumPy compares every domain index with the collection as ONE object, so no element is swapped")
+        elif not S:
+            # whole-array form: N = where(isin(domain_indices, <members>), -1, 1)[.astype(..)]
+            alloc = [s for s in fn.body if isinstance(s, ast.Assign) and unparse(s.targets[0]) == N]
+            w = alloc[0].value if len(alloc) == 1 else None
+            while isinstance(w, ast.Call) and isinstance(w.func, ast.Attribute) and w.func.attr in ("astype", "copy", "ravel"):
+                w = w.func.value
+            if not (isinstance(w, ast.Call) and unparse(w.func).split(".")[-1] == "where" and len(w.args) == 3 and isinstance(w.args[0], ast.Call)
+                    and unparse(w.args[0].func).split(".")[-1] in ("isin", "in1d") and len(w.args[0].args) >= 2 and not w.args[0].keywords
+                    and roles.canon(w.args[0].args[0], defs).replace(" ", "") == "%s.domain_indices" % pa[0]):
+                raise AnalysisError("_process_segments: multiplier assignment of a shape the rule does not know (%s)" % why)
+            members = w.args[0].args[1]
+            raw = isinstance(members, ast.Name) and members.id == pa[3]
+            conv = isinstance(members, ast.Call) and unparse(members.func).split(".")[-1] in ("list", "tuple", "sorted", "array", "asarray", "fromiter") and members.args and (
+                unparse(members.args[0]) == pa[3] or (isinstance(members.args[0], ast.Call) and unparse(members.args[0].func) in ("list", "tuple", "sorted") and unparse(members.args[0].args[0]) == pa[3]))
+            if not (raw or conv):
+                raise AnalysisError("_process_segments: membership is tested against `%s`" % unparse(members)[:60])
+            try:
+                vals = (ast.literal_eval(w.args[1]), ast.literal_eval(w.args[2]))
+            except ValueError:
+                raise AnalysisError("_process_segments: where(...) branches are not literals")
+            ok = conv and vals == (-1, 1)
+            why = ("multipliers are where(isin(domain_indices, %s), %s, %s); " % (unparse(members), vals[0], vals[1])) + (
+                "" if conv else "the membership test receives the caller's collection as it is: for a set, frozenset or dict (the function's own default is `{}`) NumPy compares every domain index with the collection as ONE object, so no element is swapped")
         else:
             raise AnalysisError("_process_segments: multiplier assignment of a shape the rule does not know (%s)" % why)
     r.check(ok, "_process_segments", SP, fn.name, fn.lineno, "normal multiplier assignment", why)
